@@ -1,7 +1,7 @@
 #include <stdint.h>
-static __thread struct { long lo[8]; int a; long z; char buf[33]; long hi[8]; } sd = { .lo = {1, 2, 3, 4, 5, 6, 7, 8}, .a = 360, .z = 7, .hi = {9, 8, 7, 6, 5, 4, 3, 2} };
-static __thread struct { long lo[8]; long z; char buf[40]; long hi[8]; } sb;
+static __thread struct { long lo[8]; int a; long z; char buf[16]; long hi[8]; } sd = { .lo = {1, 2, 3, 4, 5, 6, 7, 8}, .a = 187, .z = 269, .hi = {9, 8, 7, 6, 5, 4, 3, 2} };
+static __thread struct { long lo[8]; long z; char buf[9]; long hi[8]; } sb;
 int tlsl_get(void){ return sd.a * 3 + (int)sb.z + (int)sd.z; }
-void tlsl_bump(int v){ sd.a ^= v; sd.buf[32] = (char)v; sb.z += sd.z + 1; sb.buf[0] += 2; }
-long tlsl_sum(void){ long t = sd.buf[32] + sd.buf[0] + sb.z + sb.buf[0]; for (int i = 0; i < 8; i++) t = t * 31 + sd.lo[i] + sd.hi[i] + sb.lo[i] + sb.hi[i]; return t; }
+void tlsl_bump(int v){ sd.a ^= v; sd.buf[15] = (char)v; sb.z += sd.z + 1; sb.buf[0] += 2; }
+long tlsl_sum(void){ long t = sd.buf[15] + sd.buf[0] + sb.z + sb.buf[0]; for (int i = 0; i < 8; i++) t = t * 31 + sd.lo[i] + sd.hi[i] + sb.lo[i] + sb.hi[i]; return t; }
 long tlsl_gap(void){ return ((char*)&sd.z - (char*)&sd.a) + ((uintptr_t)&sb.z % __alignof__(long)); }
